@@ -320,4 +320,5 @@ def run(chk, tier):
 
     from . import shared
     shared.writer_text_identity(chk, fx, "writer-text-identity")
+    shared.fragment_lengths_explicit(chk, fx, "fragment-lengths-explicit")
     chk.undecided.append("validation of real output bytes by an independent parser; DataSetWriter delimiter placement is covered under C02")
